@@ -116,12 +116,19 @@ class QTensorLinear(torch.autograd.Function):
             if isinstance(input, QBytesTensor) and input.axis is not None:
                 # The scale of per-axis activations cannot be factored out of the matrix multiplication
                 input = input.dequantize()
+            # The bias is added before casting the outputs to float16: the product alone might overflow, and not their sum
+            dtype = input.dtype
             if isinstance(input, QBytesTensor):
                 # The product of the scales is evaluated in float32: it might underflow in reduced precision
                 output_scale = input._scale.to(torch.float32) * other._scale.to(torch.float32)
-                output = torch.ops.quanto.qbytes_mm(input._data, other._data, output_scale).to(input._scale.dtype)
+                output = torch.ops.quanto.qbytes_mm(input._data, other._data, output_scale)
+            elif dtype == torch.float16:
+                output = torch.ops.quanto.qbytes_mm(input, other._data, other._scale.to(torch.float32))
             else:
                 output = torch.ops.quanto.qbytes_mm(input, other._data, other._scale)
+            if bias is not None:
+                output = output + bias
+            return output.to(dtype)
         else:
             output = torch.matmul(input, other.t())
         if bias is not None:
